@@ -104,7 +104,8 @@ theorem c08_source_packetizers :
 /-- `NewMuxer` / `Muxer.process` / `muxMetadataTag` as the model reads them: video flag always,
     audio flag and AAC packetizer iff the audio codec is AAC; the worker loop; the block run while
     no sequence header has been written — wait for usable parameter sets, then metadata → video
-    configuration → audio configuration; the dispatch on the media type; the readiness test;
+    configuration → audio configuration; the dispatch on the media type; the readiness test (parameter sets present and the SPS
+    validated: width known or decodable);
     the metadata properties in order. -/
 theorem c08_source_muxer :
     IpcHub.Gen.newMuxerTypeFlags = "byte(TypeFlagsVideo)" ∧
@@ -118,9 +119,11 @@ theorem c08_source_muxer :
       "muxer.vp.PacketizeSequenceHeader()", "muxer.ap.PacketizeSequenceHeader()", "packSequenceHeader = true"] ∧
     IpcHub.Gen.muxSwitch = ["case codec.MediaTypeVideo: muxer.vp.Packetize(frame)",
       "case codec.MediaTypeAudio: muxer.ap.Packetize(frame)", "default: "] ∧
-    IpcHub.Gen.videoMetaReadyShape = ["vm := muxer.videoMeta",
-      "if vm.Codec == \"H265\" return len(vm.Vps) > 0 && len(vm.Sps) > 0 && len(vm.Pps) > 0",
-      "return len(vm.Sps) >= 4 && len(vm.Pps) > 0"] ∧
+    IpcHub.Gen.videoMetaReadyShape = ["vm := muxer.videoMeta", "if vm.Codec == \"H265\"",
+      "if len(vm.Sps) < 4 || len(vm.Pps) == 0 return false", "if vm.Width != 0 return true",
+      "var sps h264.RawSPS", "return sps.Decode(vm.Sps) == nil"] ∧
+    IpcHub.Gen.videoMetaReadyHevc = ["if len(vm.Vps) == 0 || len(vm.Sps) == 0 || len(vm.Pps) == 0 return false",
+      "if vm.Width != 0 return true", "var sps hevc.H265RawSPS", "return sps.Decode(vm.Sps) == nil"] ∧
     IpcHub.Gen.metadataPropsSrc = ["\"creator\"=\"ipchub stream media server\"",
       "MetaDataCreationDate=time.Now().Format(time.RFC3339)", "audio:MetaDataAudioCodecID=SoundFormatAAC",
       "audio:MetaDataAudioDateRate=muxer.audioMeta.DataRate", "audio:MetaDataAudioSampleRate=muxer.audioMeta.SampleRate",
